@@ -25,11 +25,11 @@ V(ok, clause, det, b, obs, exp) ==
 ForEach(S, F(_)) == LET ss == SortedSeq(S) IN Cat([i \in 1..Len(ss) |-> F(ss[i])])
 
 (* dangerous values per detector, as (field, set of values) pairs that must ALL be admitted *)
-DangerSpec(d) ==
+DangerSpec(P, d) ==
     CASE d = "rekey-to"              -> << << "RekeyTo", {ATTACKER} >> >>
       [] d = "can-close-account"     -> << << "CloseRemainderTo", {ATTACKER} >>, << "TypeEnum", {1} >> >>
       [] d = "can-close-asset"       -> << << "AssetCloseTo", {ATTACKER} >>, << "TypeEnum", {4} >> >>
-      [] d = "missing-fee-check"     -> << << "Fee", {272001, U64MAX} >> >>
+      [] d = "missing-fee-check"     -> << << "Fee", { v \in FeeReps(P) : v > 272000 } >> >>
       [] d = "is-updatable"          -> << << "OnCompletion", {4} >>, << "TypeEnum", {6} >> >>
       [] d = "is-deletable"          -> << << "OnCompletion", {5} >>, << "TypeEnum", {6} >> >>
       [] d = "unprotected-updatable" -> << << "OnCompletion", {4} >>, << "TypeEnum", {6} >>, << "Sender", {ATTACKER} >> >>
@@ -64,8 +64,8 @@ Violations(c) ==
         ctx(b) == O.ctx[ToString(b)]
         blocks == { b \in fb : ToString(b) \in DOMAIN O.ctx }
         (* ---- C03: is there a valid path of blocks that admit the dangerous value of every field of d ---- *)
-        goodAt(d, b) == \A k \in 1..Len(DangerSpec(d)) :
-                           LET fs == DangerSpec(d)[k] IN
+        goodAt(d, b) == \A k \in 1..Len(DangerSpec(P, d)) :
+                           LET fs == DangerSpec(P, d)[k] IN
                            AdmAll(fs[1], fs[2], modeOf(b), b) \cap fs[2] # {}
         goodT == TLCEval([k \in 1..Len(DetectorNames) |-> TLCEval([b \in G.ids |-> goodAt(DetectorNames[k], b)])])
         detIx(d) == CHOOSE k \in 1..Len(DetectorNames) : DetectorNames[k] = d
